@@ -344,7 +344,11 @@ fn return_expr(p: &mut Parser<'_>) -> CompletedMarker {
     let m = p.start();
     p.bump_any(); // `return` token.
                   // parse possible returned expression
-    if p.at_ts(EXPR_FIRST) {
+                  // A cast such as `int[32](x)` starts with a type, which is not in EXPR_FIRST
+                  // (expr_bp has the same extra clause).
+    if p.at_ts(EXPR_FIRST)
+        || (p.current().is_classical_type() && matches!(p.nth(1), T!['('] | T!['[']))
+    {
         expr(p);
     }
     m.complete(p, RETURN_EXPR)
